@@ -131,6 +131,15 @@ def c17(seed, n):
                 stats[c] += 1
         else:
             stats["value"] += 1
+            # malformed text is reported as a parse error: a text the reference grammar rejects must not yield a value.  (The
+            # reference is the more permissive of the two wherever they differ - missing commas, spacing before '(' - so only
+            # its rejections are used, and only its syntax errors: anything else it raises is no verdict.)
+            try:
+                ref_parse(text)
+            except RefError as e:
+                bad.append({"text": text, "problem": f"malformed text accepted: query() returned a value for a text the reference grammar rejects ({e})"})
+            except Exception:
+                pass
         if len(bad) >= 8:
             break
     return bad, stats
@@ -197,6 +206,12 @@ class RefParser:
                 out.append(self.s[j])
                 j += 1
             if j >= len(self.s):
+                if getattr(self, "lenient_strings", False) and j - self.i >= 2 and self.s[-1] == q:
+                    # `"ab\"` at the very end of a statement: by the rule "a backslash escapes the quote" this string is not
+                    # terminated, yet QString takes the escaped quote for the closing one.  Whether that is malformed is a
+                    # matter of taste (there is no other way to write a string ending in a backslash): no verdict from it
+                    self.i = len(self.s)
+                    return ("str", "".join(out))
                 raise RefError("unterminated string")
             self.i = j + 1
             return ("str", "".join(out))
@@ -233,6 +248,42 @@ class RefParser:
             self.i += 1
             return ("call", n, args)
         return ("var", n)
+
+
+def split_statements(text):
+    """statements: split at ';' outside strings"""
+    stmts, cur, q, prev = [], [], None, ""
+    for ch in text:
+        if q:
+            cur.append(ch)
+            if ch == q and prev != "\\":
+                q = None
+        elif ch in "\"'":
+            q = ch
+            cur.append(ch)
+        elif ch == ";":
+            stmts.append("".join(cur))
+            cur = []
+        else:
+            cur.append(ch)
+        prev = ch
+    stmts.append("".join(cur))
+    return stmts
+
+
+def ref_parse(text):
+    """Syntax only: raises RefError for a text the reference grammar does not derive."""
+    for s in text.split(";"):         # (the statement splitter of query(): every ';' separates, also one inside quotes)
+        if not s.strip():
+            continue
+        p = RefParser(s.strip())
+        p.lenient_strings = True
+        p.name()
+        p.expect("=")
+        p.expr()
+        p.ws()
+        if p.i != len(p.s):
+            raise RefError("trailing text")
 
 
 def ref_eval(text, ds):
@@ -304,14 +355,20 @@ class ProgGen:
             return str(r.choice([0, 1, 2, 10, 123]))
         if x < 0.55:
             q = r.choice(['"', "'"])
-            body = r.choice(["a", "t0", "a,b", "x(y)", "[z]", "k=v", "{}", "q'q" if q == '"' else 'q"q', "a;b" if False else "ab", ""])
+            # (unbalanced brackets of every kind, separators, the other kind of quote, an escaped quote of the same kind:
+            #  everything a string may hold except ';', which the statement splitter of query() takes for a separator)
+            body = r.choice(["a", "t0", "a,b", "x(y)", "[z]", "k=v", "{}", "q'q" if q == '"' else 'q"q', "ab", "",
+                             ")", "(", "]", "[", "}", "{", "a}b", "{a", "x)", "(,", "a:b", ": ", ",", " = ", "f(", "1]",
+                             "e\\" + q + "e", "\\" + q])
             return q + body + q
         if x < 0.8:
             n = r.randint(0, 3)
             return "[" + ("," + self.sp()).join(self.sp() + self.expr(depth - 1) + self.sp() for _ in range(n)) + "]"
         n = r.randint(0, 3)
-        keys = r.sample(["a", "b", "c", "d"], n)
-        return "{" + ("," + self.sp()).join(self.sp() + '"' + k + '"' + self.sp() + ":" + self.sp() + self.expr(depth - 1) + self.sp() for k in keys) + "}"
+        keys = r.sample(["a", "b", "c", "d", "k}", "{k", "a:b", "x,y", "p)", "[q", "e=f"], n)
+        kq = [r.choice(['"', "'"]) for _ in keys]
+        return "{" + ("," + self.sp()).join(self.sp() + q + k + q + self.sp() + ":" + self.sp() + self.expr(depth - 1) + self.sp()
+                                              for k, q in zip(keys, kq)) + "}"
 
     def events(self, depth):
         r = self.rng
